@@ -53,6 +53,11 @@ add('C08', 'exploration',
     'Closed-form truth computed by the harness; series bound constant 2.5 and round-trip constant 0.05 from probes on the repaired tree; the asymptotic-order clause is a per-step comparison, the weakest fit for this technique.',
     'deterministic simulation: time-stepping nodes vs closed-form truth of simulated time, dropout injection for the dead-reckoning clause', 'DESIGN.md section 2 C08')
 
+add('C15', 'exploration',
+    'Seeded search over operation histories and calendar faults: up to 40 operations (construct with float/int/date/None dates, magnetic_field with explicit, kept or omitted date, reset_coefficients, reads) on a pool of 1-3 long-lived WMM objects, interleaved with simulated calendar jumps across epoch and rounding boundaries; every answer is compared (1e-9) with a single-copy reference model whose expected elements come from a fresh object through one canonical route, plus step invariants (H/F/I/D from X/Y/Z, ENU vs NED twin, +-180, poles, equator and prime meridian).',
+    'Reference is the package\'s own evaluator on a fresh object (decides path/history independence, not absolute correctness, which is C14); calendar seam is a datetime shim bound into ahrs.utils.wmm at import; no I/O fault injected.',
+    'deterministic simulation: operation histories against a reference model, calendar clock seam with jump faults', 'DESIGN.md section 2 C15')
+
 def build():
     m = {
         'version': 1,
